@@ -1,10 +1,202 @@
-(* C07 lemmas (first instalment: atomicity of step). *)
+(* C07: every operation of a history preserves the bookkeeping invariant; ids, owners and ranges are stable. *)
 From Coq Require Import ZArith List Bool Lia.
 Import ListNotations.
 From Osmo Require Import Base.DecModel CL.TickMath CL.CLMath CL.CLPool CL.CLSwap CL.CLStep.
+From Osmo Require Import C07.Base C07.TickLemmas C07.LP C07.SwapDir C07.Swap.
 Open Scope Z_scope.
 
 Lemma step_failed_unchanged : forall s o s', step s o = (s', None) -> s' = s.
 Proof.
   intros s o s' H. unfold step in H. destruct (handler s o) as [[s1 r]|]; inversion H; reflexivity.
+Qed.
+
+Lemma z_mem_In : forall x l, z_mem x l = true -> In x l.
+Proof.
+  induction l as [|y l IH]; simpl; intros H; [discriminate|]. apply orb_true_iff in H.
+  destruct H as [H|H]; [apply Z.eqb_eq in H; left; congruence|right; auto].
+Qed.
+
+(* what one operation may do to the positions *)
+Definition stable_step (s s' : state) (o : op) : Prop :=
+  s_next_id s <= s_next_id s' /\
+  (forall id q q', pos_get (s_pos s) id = Some q -> pos_get (s_pos s') id = Some q' ->
+     ps_lower q' = ps_lower q /\ ps_upper q' = ps_upper q /\
+     (ps_owner q' <> ps_owner q -> exists ids, o = OTransfer (ps_owner q) ids (ps_owner q') /\ In id ids)) /\
+  (forall id q', pos_get (s_pos s) id = None -> pos_get (s_pos s') id = Some q' -> s_next_id s <= id < s_next_id s').
+
+Lemma stable_refl : forall s o, stable_step s s o.
+Proof.
+  intros s o. unfold stable_step. split; [lia|]. split.
+  - intros id q q' A B. rewrite A in B. inversion B; subst. splits; try reflexivity. intro C; contradiction.
+  - intros id q' A B. rewrite A in B. discriminate.
+Qed.
+
+Lemma stable_same_pos : forall s s' o, s_pos s' = s_pos s -> s_next_id s' = s_next_id s -> stable_step s s' o.
+Proof.
+  intros s s' o P N. unfold stable_step. rewrite P, N. apply (stable_refl s o).
+Qed.
+
+Lemma handler_inv : forall s o s' r, Inv s -> handler s o = Some (s', r) -> Inv s' /\ stable_step s s' o.
+Proof.
+  intros s o s' r I H. destruct o; simpl in H.
+  - (* create *)
+    destruct (create_position s owner amt0 amt1 min0 min1 lo hi) as [[s1 c]|] eqn:E; [|discriminate]. inversion H; subst; clear H.
+    destruct (create_position_spec _ _ _ _ _ _ _ _ _ _ I E) as [I' [N [Cid [P [T [L Spc]]]]]]. split; [assumption|].
+    pose proof (pos_get_fresh _ _ _ (inv_pos_ok s I)) as Fr.
+    unfold stable_step. split; [lia|]. split.
+    + intros id q q' A B. rewrite P, pos_get_set in B. simpl in B.
+      destruct (id =? s_next_id s) eqn:Ei; [apply Z.eqb_eq in Ei; subst id; congruence|].
+      rewrite A in B. inversion B; subst. splits; try reflexivity. intro C; contradiction.
+    + intros id q' A B. rewrite P, pos_get_set in B. simpl in B.
+      destruct (id =? s_next_id s) eqn:Ei; [apply Z.eqb_eq in Ei; lia|]. congruence.
+  - (* withdraw *)
+    destruct (withdraw_position s owner id liq) as [[s1 [a0 a1]]|] eqn:E; [|discriminate]. inversion H; subst; clear H.
+    destruct (withdraw_position_spec _ _ _ _ _ _ _ I E) as [I' [N [T [Spc [q0 [G [O [Lq P]]]]]]]]. split; [assumption|].
+    unfold stable_step. split; [lia|].
+    assert (Get : forall id', pos_get (s_pos s') id' =
+                  if id' =? id then (if liq =? ps_liq q0 then None else Some (mkPos id owner (ps_lower q0) (ps_upper q0) (ps_liq q0 - liq) (ps_join q0)))
+                  else pos_get (s_pos s) id').
+    { intros id'. rewrite P. destruct (liq =? ps_liq q0).
+      - rewrite pos_get_remove by apply (inv_pos_sorted s I). reflexivity.
+      - rewrite pos_get_set. simpl. reflexivity. }
+    split.
+    + intros id' q q' A B. rewrite Get in B. destruct (id' =? id) eqn:Ei.
+      * apply Z.eqb_eq in Ei. subst id'. rewrite G in A. inversion A; subst q0.
+        destruct (liq =? ps_liq q); [discriminate|]. inversion B; subst q'. simpl. splits; try reflexivity. intro C. congruence.
+      * rewrite A in B. inversion B; subst. splits; try reflexivity. intro C; contradiction.
+    + intros id' q' A B. rewrite Get in B. destruct (id' =? id) eqn:Ei; [apply Z.eqb_eq in Ei; subst; congruence|congruence].
+  - (* add to position *)
+    destruct (add_to_position s owner id amt0 amt1 min0 min1) as [[s1 [[nid x0] x1]]|] eqn:E; [|discriminate]. inversion H; subst; clear H.
+    destruct (add_to_position_spec _ _ _ _ _ _ _ _ _ _ _ I E) as [I' [N [Nid [T [Spc [q0 [lo' [hi' [liq' [G [O [Lq P]]]]]]]]]]]]. split; [assumption|].
+    pose proof (pos_get_fresh _ _ _ (inv_pos_ok s I)) as Fr.
+    unfold stable_step. split; [lia|].
+    assert (Get : forall id', pos_get (s_pos s') id' =
+                  if id' =? s_next_id s then Some (mkPos (s_next_id s) owner lo' hi' liq' (s_time s))
+                  else if id' =? id then None else pos_get (s_pos s) id').
+    { intros id'. rewrite P, pos_get_set. simpl. destruct (id' =? s_next_id s); [reflexivity|].
+      rewrite pos_get_remove by apply (inv_pos_sorted s I). reflexivity. }
+    split.
+    + intros id' q q' A B. rewrite Get in B.
+      destruct (id' =? s_next_id s) eqn:Ei; [apply Z.eqb_eq in Ei; subst id'; congruence|].
+      destruct (id' =? id); [discriminate|]. rewrite A in B. inversion B; subst. splits; try reflexivity. intro C; contradiction.
+    + intros id' q' A B. rewrite Get in B.
+      destruct (id' =? s_next_id s) eqn:Ei; [apply Z.eqb_eq in Ei; lia|]. destruct (id' =? id); congruence.
+  - (* transfer *)
+    destruct (transfer_positions s sender ids recipient) as [s1|] eqn:E; [|discriminate]. inversion H; subst; clear H.
+    destruct (transfer_positions_spec _ _ _ _ _ I E) as [I' [N [T [Pl [Tk [G Ow]]]]]]. split; [assumption|].
+    unfold stable_step. split; [lia|]. split.
+    + intros id q q' A B. rewrite G, A in B. destruct (z_mem id ids) eqn:M.
+      * inversion B; subst q'. unfold owner_set; simpl. splits; try reflexivity. intros _.
+        exists ids. rewrite (Ow id q M A). split; [reflexivity|apply z_mem_In; assumption].
+      * inversion B; subst. splits; try reflexivity. intro C; contradiction.
+    + intros id q' A B. rewrite G, A in B. discriminate.
+  - (* swap exact in *)
+    destruct (swap_exact_in s sender zfo amt min_out) as [[s1 out]|] eqn:E; [|discriminate]. inversion H; subst; clear H.
+    destruct (swap_exact_in_spec _ _ _ _ _ _ _ I E) as [I' [P [_ [N _]]]]. split; [assumption|apply stable_same_pos; assumption].
+  - (* swap exact out *)
+    destruct (swap_exact_out s sender zfo amt max_in) as [[s1 tin]|] eqn:E; [|discriminate]. inversion H; subst; clear H.
+    destruct (swap_exact_out_spec _ _ _ _ _ _ _ I E) as [I' [P [_ [N _]]]]. split; [assumption|apply stable_same_pos; assumption].
+  - (* time *)
+    inversion H; subst; clear H. split; [|apply stable_same_pos; reflexivity].
+    constructor; simpl; apply I.
+Qed.
+
+Lemma handler_spacing : forall s o s' r, Inv s -> handler s o = Some (s', r) -> p_spacing (s_pool s') = p_spacing (s_pool s).
+Proof.
+  intros s o s' r I H. destruct o; simpl in H.
+  - destruct (create_position s owner amt0 amt1 min0 min1 lo hi) as [[s1 c]|] eqn:E; [|discriminate]. inversion H; subst; clear H.
+    apply (create_position_spec _ _ _ _ _ _ _ _ _ _ I E).
+  - destruct (withdraw_position s owner id liq) as [[s1 [a0 a1]]|] eqn:E; [|discriminate]. inversion H; subst; clear H.
+    apply (withdraw_position_spec _ _ _ _ _ _ _ I E).
+  - destruct (add_to_position s owner id amt0 amt1 min0 min1) as [[s1 [[nid x0] x1]]|] eqn:E; [|discriminate]. inversion H; subst; clear H.
+    apply (add_to_position_spec _ _ _ _ _ _ _ _ _ _ _ I E).
+  - destruct (transfer_positions s sender ids recipient) as [s1|] eqn:E; [|discriminate]. inversion H; subst; clear H.
+    destruct (transfer_positions_spec _ _ _ _ _ I E) as [_ [_ [_ [Pl _]]]]. rewrite Pl. reflexivity.
+  - destruct (swap_exact_in s sender zfo amt min_out) as [[s1 out]|] eqn:E; [|discriminate]. inversion H; subst; clear H.
+    apply (swap_exact_in_spec _ _ _ _ _ _ _ I E).
+  - destruct (swap_exact_out s sender zfo amt max_in) as [[s1 tin]|] eqn:E; [|discriminate]. inversion H; subst; clear H.
+    apply (swap_exact_out_spec _ _ _ _ _ _ _ I E).
+  - inversion H; subst. reflexivity.
+Qed.
+
+Lemma step_inv : forall s o, Inv s -> Inv (fst (step s o)) /\ stable_step s (fst (step s o)) o.
+Proof.
+  intros s o I. unfold step. destruct (handler s o) as [[s' r]|] eqn:E; simpl.
+  - eapply handler_inv; eassumption.
+  - split; [assumption|apply stable_refl].
+Qed.
+
+Lemma step_spacing : forall s o, Inv s -> p_spacing (s_pool (fst (step s o))) = p_spacing (s_pool s).
+Proof.
+  intros s o I. unfold step. destruct (handler s o) as [[s' r]|] eqn:E; simpl; [eapply handler_spacing; eassumption|reflexivity].
+Qed.
+
+Lemma run_spacing : forall ops s, Inv s -> p_spacing (s_pool (run s ops)) = p_spacing (s_pool s).
+Proof.
+  induction ops as [|o ops IH]; intros s I; simpl; [reflexivity|].
+  rewrite IH by apply (step_inv s o I). apply step_spacing; assumption.
+Qed.
+
+Lemma init_inv : forall sp spf sc users t, 0 < sp -> 0 <= spf <= 500000000000000000 -> Inv (init_state sp spf sc users t).
+Proof.
+  intros sp spf sc users t Hs Hf. unfold init_state. constructor; simpl.
+  - constructor.
+  - constructor.
+  - constructor.
+  - intro b. reflexivity.
+  - reflexivity.
+  - intro H; contradiction.
+  - intros _. split; reflexivity.
+  - lia.
+  - assumption.
+  - assumption.
+Qed.
+
+Lemma run_inv : forall ops s, Inv s -> Inv (run s ops).
+Proof.
+  induction ops as [|o ops IH]; intros s I; simpl; [assumption|]. apply IH. apply (step_inv s o I).
+Qed.
+
+(* prefix of a history *)
+Lemma run_app : forall a b s, run s (a ++ b) = run (run s a) b.
+Proof. induction a as [|o a IH]; intros b s; simpl; [reflexivity|apply IH]. Qed.
+
+(* ---------- consequences used by the property theorems ---------- *)
+Lemma authorised_spacing_pos : forall sp, In sp Gen.CL_consts.cl_AuthorizedTickSpacing -> 0 < sp.
+Proof. intros sp H. unfold Gen.CL_consts.cl_AuthorizedTickSpacing in H. simpl in H. intuition lia. Qed.
+Lemma authorised_spread_bounds : forall spf, In spf Gen.CL_consts.cl_AuthorizedSpreadFactors -> 0 <= spf <= 500000000000000000.
+Proof. intros spf H. unfold Gen.CL_consts.cl_AuthorizedSpreadFactors in H. simpl in H. intuition lia. Qed.
+
+Lemma tick_expected_uses : forall b l, Forall (fun p => 0 < ps_liq p) l ->
+  tick_expected b l = if uses b l then Some (mkTick (gross_at b l) (net_at b l)) else None.
+Proof.
+  intros b l H. unfold tick_expected. destruct (uses b l) eqn:U.
+  - apply (uses_gross b l H) in U. apply Z.ltb_lt in U. rewrite U. reflexivity.
+  - destruct (0 <? gross_at b l) eqn:G; [|reflexivity]. apply Z.ltb_lt in G. apply (uses_gross b l H) in G. congruence.
+Qed.
+
+Lemma tick_get_all_none : forall m, (forall b, tick_get m b = None) -> m = [].
+Proof. intros [|[k v] m] H; [reflexivity|]. specialize (H k). simpl in H. rewrite Z.eqb_refl in H. discriminate. Qed.
+
+Lemma absent_stays : forall ops s id, Inv s -> pos_get (s_pos s) id = None -> id < s_next_id s ->
+  pos_get (s_pos (run s ops)) id = None.
+Proof.
+  induction ops as [|o ops IH]; intros s id I A L; simpl; [assumption|].
+  destruct (step_inv s o I) as [I' [N [_ S3]]]. apply IH; [assumption| |lia].
+  destruct (pos_get (s_pos (fst (step s o))) id) as [q'|] eqn:E; [|reflexivity].
+  specialize (S3 id q' A E). lia.
+Qed.
+
+Lemma ranges_stable_run : forall ops s id q q', Inv s ->
+  pos_get (s_pos s) id = Some q -> pos_get (s_pos (run s ops)) id = Some q' ->
+  ps_lower q' = ps_lower q /\ ps_upper q' = ps_upper q.
+Proof.
+  induction ops as [|o ops IH]; intros s id q q' I A B; simpl in B.
+  - rewrite A in B. inversion B; subst. split; reflexivity.
+  - destruct (step_inv s o I) as [I' [N [S2 S3]]].
+    destruct (pos_get (s_pos (fst (step s o))) id) as [q1|] eqn:E.
+    + destruct (S2 id q q1 A E) as [X [Y _]]. destruct (IH _ id q1 q' I' E B) as [X' Y']. split; congruence.
+    + exfalso. pose proof (pos_get_in _ _ _ A) as Hin. pose proof (pos_get_id _ _ _ A) as Hid.
+      pose proof (inv_pos_ok s I) as POK. rewrite Forall_forall in POK. destruct (POK _ Hin) as [[_ Lt] _].
+      rewrite (absent_stays ops _ id I' E ltac:(lia)) in B. discriminate.
 Qed.
